@@ -53,6 +53,7 @@ func SpecDec(v int64) string { panic("abstract spec function") }
 //@   replay types_decoders
 //@   requires nonnil: lp != nil
 //@   modifies lp.p
+//@   assume listpack_within_the_format_limit: cap(lp.data) <= 1073741824 && lp.p <= 1073741824
 //@   ensures every_entry_read_moves_the_cursor_forward: lp.p > old(lp.p)
 //@   ensures uint7: old(lp.data[lp.p]) & 0x80 == 0 ==> string(result) == SpecDec(int64(old(lp.data[lp.p]) & 0x7f)) && lp.p == old(lp.p) + 2
 //@   ensures int13: old(lp.data[lp.p]) & 0xE0 == 0xC0 ==> string(result) == SpecDec(SpecSext13(uint64(old(lp.data[lp.p]) & 0x1f) << 8 | uint64(old(lp.data[lp.p + 1])))) && lp.p == old(lp.p) + 3
